@@ -61,3 +61,18 @@ package local
 //@   on aftercall (*cfgbackend.ConsulSource).GetNextUInt32 : asked = true ; lastErr = (result1 != nil) ; got = result0
 //@   ensures asked && err == nil ==> !lastErr && runNumber == got
 //@   ensures asked && lastErr ==> err != nil
+// whatever the backend: 0 is "no run" and is never handed out as a run number (the file-backed counter used to wrap from
+// 4294967295 to 0 like the Consul one did), and the file-backed read-increment-write is one critical section
+//@   ensures err == nil ==> runNumber != 0
+//@   ghostvar held bool = false
+//@   on call (*sync.Mutex).Lock : held = true
+//@   on call (*sync.Mutex).Unlock : held = false
+//@   on call ioutil.ReadFile : assert held
+//@   on call ioutil.WriteFile : assert held
+
+// C20: resolving a query that is not there is an error, not a crash of the configuration service
+//@ func (s *Service) ResolveComponentQuery(query *componentcfg.Query) (resolved *componentcfg.Query, err error)
+//@   property C20
+//@   safety nil
+//@   requires s != nil
+//@   ensures query == nil ==> err != nil
